@@ -11,7 +11,6 @@ Cnt0 == [steps |-> 0, execs |-> 0, creates |-> 0, rtok |-> 0, rtfull |-> 0, remo
          reuse |-> 0, grown |-> 0, readbacks |-> 0, refined |-> 0, drifted |-> 0, maxsize |-> 0]
 Init == l = 1 /\ A = <<>> /\ C = C0 /\ capb = 0 /\ fails = <<>> /\ cnt = Cnt0 /\ drift = <<>> /\ exec = 0
 
-SetToSeq(S) == CHOOSE f \in [1..Cardinality(S) -> S] : \A i, j \in 1..Cardinality(S) : i # j => f[i] # f[j]
 Tag(S, ev) == { [p |-> "C16", w |-> x, l |-> l, x |-> exec, e |-> ev.o, d |-> ""] : x \in S }
 AddFails(S) == IF Len(fails) >= MaxFails \/ S = {} THEN fails ELSE fails \o SetToSeq(S)
 Lbl(c, s) == IF c THEN {} ELSE {s}
